@@ -1091,6 +1091,10 @@ def _nas_cases(rnd, table, shapes, tier):
     cases = []
     idn = 0
 
+    def arr_allowed(iei, cap):
+        return {16: [1, 2, 12, 13], 34: [1, 2, 4, 5, 8], 41: [5, 9, 13], 23: [2, 3, 13], 0x21: [1, 2, 3], 0x4A: [3, 6, 42, 45],
+                0x28: [1, 2, 12, 13], 0x2D: [4, 8, 16]}.get(iei, [cap])
+
     def val_len(fmt, fixed, sh, mode, iei=-1):
         cap = sh["cap"] if sh else 8
         if fmt == "V":
@@ -1108,8 +1112,7 @@ def _nas_cases(rnd, table, shapes, tier):
             # S1 UE network capability 2..13)
             # S1 UE network capability 2..13, 5GS network feature support 1..3, equivalent PLMNs 3..45 in threes, 5GSM capability 1..13,
             # authentication response parameter 4..16)
-            allowed = {16: [1, 2, 12, 13], 34: [1, 2, 4, 5, 8], 41: [5, 9, 13], 23: [2, 3, 13], 0x21: [1, 2, 3], 0x4A: [3, 6, 42, 45],
-                       0x28: [1, 2, 12, 13], 0x2D: [4, 8, 16]}.get(iei, [cap])
+            allowed = arr_allowed(iei, cap)
             return allowed[mode % len(allowed)]
         if big:
             return [0, 1, 255, 256, 700, rnd.randrange(40)][mode % 6]
@@ -1152,7 +1155,7 @@ def _nas_cases(rnd, table, shapes, tier):
                     opt.append({"iei": row[0], "v": v})
                 perm = list(range(1, len(opt) + 1))
                 if len(opt) > 1:
-                    choice = rnd.randrange(4)
+                    choice = idn % 4
                     if choice == 0:
                         perm.reverse()
                     elif choice == 1:
@@ -1176,10 +1179,16 @@ def _nas_cases(rnd, table, shapes, tier):
             row = t["opt"][i]
             if row[1] not in ("TLVE", "LVE", "TLV", "LV") or i in iso_idx:
                 continue
-            if oshapes[i] and oshapes[i]["kind"] in ("lv-array", "lve-array", "octet"):
+            if oshapes[i] and oshapes[i]["kind"] == "octet":
                 continue
             top = 262 if row[1] in ("TLVE", "LVE") else 256
-            for L in [0, 1, 2] + list(range(246, top)):
+            lengths = [0, 1, 2] + list(range(246, top))
+            if oshapes[i] and oshapes[i]["kind"] in ("lv-array", "lve-array"):
+                # array-backed: every length the standard allows for this IE, with all other optional IEs behind it
+                lengths = arr_allowed(row[0], oshapes[i]["cap"])
+                if len(lengths) < 2:
+                    continue
+            for L in lengths:
                 hdr = [0] if t["epd"] == 126 else [rnd.randrange(256), rnd.randrange(256)]
                 mand = [[rnd.randrange(256) for _ in range(val_len(r2[1], r2[2], s2, 1))] for (r2, s2) in zip(t["mand"], mshapes)]
                 opt = []
@@ -1190,7 +1199,7 @@ def _nas_cases(rnd, table, shapes, tier):
                     if j == i:
                         v = [rnd.randrange(256) for _ in range(L)]
                     elif rj[1] == "TV1":
-                        v = [rnd.randrange(16)]
+                        v = [[0, 15, rnd.randrange(16)][(L + j) % 3]]
                     else:
                         v = [rnd.randrange(256) for _ in range(val_len(rj[1], rj[2], oshapes[j], 1 + j, rj[0]))]
                     opt.append({"iei": rj[0], "v": v})
